@@ -99,6 +99,12 @@ func (c *TableWriter) WriteRun(entries iter.Seq[kv.Entry], targetSize uint64) ([
 		for buffer.size < int(targetSize) {
 			entry, ok := next()
 			if !ok {
+				// The input ended exactly at a chunk boundary: nothing is left to
+				// write. An empty table must not be added to the run (it cannot be
+				// scanned: an entries region of size 0 reads as unbounded).
+				if len(buffer.entries) == 0 && len(tables) > 0 {
+					return tables, nil
+				}
 				t, err := c.Write(buffer.all())
 				if err != nil {
 					return nil, err
